@@ -4,7 +4,7 @@
    normal equations Aop nb D w [] beta = rhs nb D w y; the estimate is the intercept. *)
 From Coq Require Import List Reals QArith.
 From FDAV Require Import Base.Num Base.Vec Model.Basis Model.Pspline Model.LocalPoly
-  Lemmas.Vec Lemmas.Pspline Lemmas.LocalPoly Gen.Kernels Lemmas.GenKernels.
+  Model.Poly Lemmas.Vec Lemmas.Pspline Lemmas.LocalPoly Gen.Kernels Lemmas.GenKernels Lemmas.LocalPolyRepro.
 Import ListNotations.
 Local Open Scope R_scope.
 
@@ -99,3 +99,19 @@ Theorem C06_translated_kernels_even : forall x, (gen_kernel_epanechnikov opsR (-
   gen_kernel_gaussian (- x) = gen_kernel_gaussian x)%R.
 Proof. exact gen_kernels_even. Qed.
 Print Assumptions C06_translated_kernels_even.
+
+(* ---- polynomial reproduction, end to end on the executed 1-D design: a polynomial given by its coefficients in x
+   (constant term first, degree <= p) is re-expanded around the query point; the re-expanded coefficients solve the
+   local normal equations for every kernel weight vector; with a full-rank weighted local design every solution has
+   the polynomial's value at the query point as its intercept (= the estimate) ---- *)
+Theorem C06_design_of_reexpanded_polynomial : forall p x0 h (a xs : list R), (h <> 0)%R -> (length a <= S p)%nat ->
+  mv opsR (design_1d opsR p x0 h xs) (local_coef p x0 h a) = map (peval opsR a) xs.
+Proof. exact design_poly. Qed.
+Print Assumptions C06_design_of_reexpanded_polynomial.
+Theorem C06_polynomial_reproduced : forall p x0 h w (a xs beta : list R), (h <> 0)%R -> (length a <= S p)%nat ->
+  length beta = S p ->
+  (forall c, length c = S p -> (dot opsR c (Aop opsR (S p) (design_1d opsR p x0 h xs) w [] c) = 0)%R -> c = zeros opsR (S p)) ->
+  Aop opsR (S p) (design_1d opsR p x0 h xs) w [] beta = rhs opsR (S p) (design_1d opsR p x0 h xs) w (map (peval opsR a) xs) ->
+  (nth 0 beta 0 = peval opsR a x0)%R.
+Proof. exact lp_polynomial_reproduced. Qed.
+Print Assumptions C06_polynomial_reproduced.
